@@ -5,9 +5,9 @@
 
    Pattern operators: the pattern of a word is [pattern_of w] (quoted parts backslash-escaped, as bash's
    quote_string_for_globbing does) parsed into tokens [toks a]; fragment * ? literal \x.
-   Not proved (by search and code leg only): the shortest/longest optimality of ${v#p} ${v##p} and of
-   ${v/#p/w} (a matching prefix is removed / replaced, or nothing when none matches), which match is taken
-   at the leftmost position by ${v/p/w}, the global form ${v//p/w}, and C21_elementwise; see notes/C21.md. *)
+   Not proved (by search and code leg only): which match ${v/p/w} takes at the leftmost position, the
+   global form ${v//p/w}; the element-wise theorems cover the pattern operators (# ## % %% ^ ^^ , ,,) on
+   indexed arrays and positional parameters, not replacement / slices / associative arrays; see notes/C21.md. *)
 From Verif Require Import Base.Str Expand.Param Expand.ParamSpec Proofs.ParamMatchProofs Proofs.ParamProofs.
 Open Scope N_scope.
 
@@ -64,19 +64,18 @@ Theorem C21_remove_suffix : forall upper lower quote e name i op w v a,
 Proof. exact remove_suffix_param. Qed.
 Print Assumptions C21_remove_suffix.
 
-(* ${p#w} / ${p##w}: some matching prefix is removed, or nothing when no prefix matches.
-   Missing: that it is the shortest / longest one (greedy backtracking = longest on this fragment). *)
-Theorem C21_remove_prefix_partial : forall upper lower quote e name i op w v a,
+(* ${p#w} / ${p##w}: the value minus its shortest / longest prefix matching the pattern (greedy
+   backtracking = longest, lazy = shortest: Proofs/ParamMatchProofs.v greedy_longest, lazy_shortest) *)
+Theorem C21_remove_prefix : forall upper lower quote e name i op w v a,
   is_params_name name = false ->
   is_list_idx i = false ->
   bash_value (env_get e name) i = PVal v ->
   is_prefix_op op = true ->
   pat_atoms (pattern_of w) = PatOk a ->
   exists r, param_exp upper lower quote e (mkP name i (PExp op w)) = OOk (r, None) /\
-    ((exists pre, cur v = pre ++ r /\ pmatch (toks a) pre) \/
-     (r = cur v /\ forall pre suf, cur v = pre ++ suf -> ~ pmatch (toks a) pre)).
+            is_prefix_removal (is_longest_op op) (toks a) (cur v) r.
 Proof. exact remove_prefix_param. Qed.
-Print Assumptions C21_remove_prefix_partial.
+Print Assumptions C21_remove_prefix.
 
 Theorem C21_case : forall upper lower quote e name i op w v a conv all,
   is_params_name name = false ->
@@ -103,17 +102,18 @@ Theorem C21_replace_anchored_end : forall upper lower quote e name i orig w s p 
 Proof. exact replace_end_param. Qed.
 Print Assumptions C21_replace_anchored_end.
 
-(* ${p/#pat/w}: a matching prefix is replaced (partial: not shown to be the longest) *)
-Theorem C21_replace_anchored_begin_partial : forall upper lower quote e name i orig w s p a,
+(* ${p/#pat/w}: the longest prefix matching pat is replaced by w; unchanged when no prefix matches *)
+Theorem C21_replace_anchored_begin : forall upper lower quote e name i orig w s p a,
   is_params_name name = false -> is_list_idx i = false ->
   bash_value (env_get e name) i = PVal (Some s) ->
   split_anchor false orig (pattern_of orig) = (ABegin, p) ->
   pat_atoms p = PatOk a ->
   exists r, param_exp upper lower quote e (mkP name i (PRepl false orig w)) = OOk (r, None) /\
-    ((exists pre suf, s = pre ++ suf /\ pmatch (toks a) pre /\ r = literal_of w ++ suf)
+    ((exists pre suf, s = pre ++ suf /\ pmatch (toks a) pre /\ r = literal_of w ++ suf /\
+        forall pre' suf', s = pre' ++ suf' -> pmatch (toks a) pre' -> (length pre' <= length pre)%nat)
      \/ (r = s /\ forall pre suf, s = pre ++ suf -> ~ pmatch (toks a) pre)).
 Proof. exact replace_begin_param. Qed.
-Print Assumptions C21_replace_anchored_begin_partial.
+Print Assumptions C21_replace_anchored_begin.
 
 (* ${p/pat/w}: an occurrence starting at the leftmost matching position is replaced
    (partial: which match at that position is not characterised) *)
@@ -137,6 +137,49 @@ Theorem C21_replace_unset : forall upper lower quote e name i all orig w,
 Proof. exact replace_unset_param. Qed.
 Print Assumptions C21_replace_unset.
 
+(* C21_elementwise: "${a[@]op}" / "$@": one field per element, "${a[*]op}" / "$*": the elements joined with the first
+   IFS character; each element is exactly what the same operator gives on a scalar holding that element
+   (C21_elementwise_scalar; by C21_remove_prefix / C21_remove_suffix / C21_case that is bash's result) *)
+Theorem C21_elementwise_quoted : forall upper lower quote e name i op w l star f,
+  list_of_subject e name i = Some (l, star) ->
+  is_pat_op op = true ->
+  pat_in_model (exp_arg op w) = true ->
+  elem_op upper lower op (exp_arg op w) = Some f ->
+  expand_word upper lower quote e (mkP name i (PExp op w)) true =
+  OOk (if star then [ifs_join e (map f l)] else map f l, None).
+Proof. exact elementwise_quoted. Qed.
+Print Assumptions C21_elementwise_quoted.
+
+Theorem C21_elementwise_scalar : forall upper lower quote e name op w x f,
+  is_params_name name = false ->
+  env_get e name = VStr x ->
+  is_pat_op op = true ->
+  pat_in_model (exp_arg op w) = true ->
+  elem_op upper lower op (exp_arg op w) = Some f ->
+  param_exp upper lower quote e (mkP name INone (PExp op w)) = OOk (f x, None).
+Proof. exact elementwise_scalar. Qed.
+Print Assumptions C21_elementwise_scalar.
+
+(* unquoted: the converted elements are joined and the result is split at IFS ... *)
+Theorem C21_elementwise_unquoted : forall upper lower quote e name i op w l star f,
+  is_params_name name = false ->
+  list_of_subject e name i = Some (l, star) ->
+  is_pat_op op = true ->
+  pat_in_model (exp_arg op w) = true ->
+  elem_op upper lower op (exp_arg op w) = Some f ->
+  expand_word upper lower quote e (mkP name i (PExp op w)) false =
+  OOk (split_fields (ifs_of e) (if star then ifs_join e (map f l) else join SP (map f l)) [], None).
+Proof. exact elementwise_unquoted. Qed.
+Print Assumptions C21_elementwise_unquoted.
+
+(* ... which, when IFS contains the space (the default), is splitting every element on its own, as bash does;
+   with IFS='' it is not (known finding unquoted_list_op_null_ifs) *)
+Theorem C21_split_of_joined_elements : forall ifs xs,
+  in_str 32 ifs = true ->
+  split_fields ifs (join SP xs) [] = flat_map (fun x => split_fields ifs x []) xs.
+Proof. exact split_join_space. Qed.
+Print Assumptions C21_split_of_joined_elements.
+
 Example C21_remove_nonvacuous :
   (* v = b NL a b ; ${v%*b} = b NL a (shortest suffix across the newline, repaired) ; ${v%%"*"b} unchanged *)
   param_exp (fun c => c) (fun c => c) (fun s => s) [([118], VStr [98; 10; 97; 98])]
@@ -145,6 +188,13 @@ Example C21_remove_nonvacuous :
             (mkP [118] INone (PExp RemLS [WQuo [42]; WLit [98]])) = OOk ([98; 10; 97; 98], None) /\
   pat_atoms (pattern_of [WQuo [42]; WLit [98]]) = PatOk [RChar 42; RChar 98].
 Proof. vm_compute. repeat split; reflexivity. Qed.
+
+Example C21_elementwise_nonvacuous :
+  (* a=(foo "b ar") ; "${a[@]^}" = Foo, "B ar" ; ${a[@]#?} = oo, ar split: oo , ar  (3 fields: oo " ar" -> oo, ar) *)
+  expand_word (fun c => if (97 <=? c) && (c <=? 122) then c - 32 else c) (fun c => c) (fun s => s)
+              [([97], VIdx [[102; 111; 111]; [98; 32; 97; 114]] None)] (mkP [97] IAt (PExp UpFirst [])) true
+  = OOk ([[70; 111; 111]; [66; 32; 97; 114]], None).
+Proof. vm_compute. reflexivity. Qed.
 
 (* full statement: forall e name v, bash_value (env_get e name) INone = PVal v ->
      param_exp e (mkP name INone PExcl) = lift (bash_indirect e v).
